@@ -559,7 +559,14 @@ def parse_file(path):
             blk = cur.blocks[curbb]
             if blk['cleanup']:
                 continue          # never entered: a panic ends the path
-            kind, val = parse_statement(text)
+            try:
+                kind, val = parse_statement(text)
+            except MirSyntaxError as e:
+                # keep the damage local: executing this statement is Unsupported, everything else still works
+                if _targets_re.search(text.rstrip(';')) or text.startswith(('goto', 'switchInt', 'return', 'unreachable', 'resume')):
+                    kind, val = 'term', ('unparsed', text, str(e))
+                else:
+                    kind, val = 'stmt', ('unparsed', text, str(e))
             if kind == 'stmt':
                 if val[0] != 'nop':
                     blk['stmts'].append(val)
